@@ -14,5 +14,20 @@ TEXTS = {
                  "property's quantifier)."),
         "technique": "Coq proof (generic worklist/seen-set reachability theorem) + extracted-model differential testing",
     },
+    "C02": {
+        "text": ("Coq theorems over the executable model of ModuleGraphErrorIterator/validate/valid: for "
+                 "follow_dynamic = false (which includes ModuleGraph::valid) validation succeeds iff no failure "
+                 "is in the walk-selected set (C02_validate_iff, C02_valid_iff), code validation follows only "
+                 "redirects and static code edges (C02_valid_edges), the reported error belongs to a visited "
+                 "entry, and for any options a visited failure other than a Missing slot is never skipped. "
+                 "The iff for follow_dynamic = true is refuted in the model and on the real code (known "
+                 "finding F-C02a). The real verdicts of thousands of validations are judged by the extracted "
+                 "decision procedure, which is proved equivalent to the declarative statement."),
+        "design_ref": "DESIGN.md section 5 C02, section 6",
+        "note": ("Trusted: Coq kernel; extraction; harness abstraction of the real graph; schemes, the "
+                 "file:// literal test and error identities are data computed by the real crate. Graph-level: "
+                 "unconditional on how the graph was built."),
+        "technique": "Coq proof (iff between validate and a declarative reachability-of-failure relation) + proved decision procedure run on real verdicts",
+    },
 }
 NOT_YET = {}
